@@ -14,10 +14,10 @@ ASSUMPTIONS = ["layout_invariance_partial covers clients that use token/token_if
 
 DISCARD = impl.L.TokenStream._discard_types
 
-LAYOUT_FULL = [" ", "  ", "\t", "\n", "\r\n", " \n  ", "\n\n", "/* c */", "/* a\n b */", "// c\n", " \\\n ", "\\\n", " /*x*/ // y\n", "\r\n\r\n", " \\\r\n "]
-LAYOUT_NONL = [" ", "  ", "\t", "/* c */", " /* a */ /* b */ "]
-LAYOUT_PRAGMA_IN = [" ", "\t", "/* c */", "/* a\n b */", " \\\n ", "  "]
-LAYOUT_LINE_END = ["\n", "\r\n", " \n  ", " // c\n", " /* c */\n", "\n\n", "\t\r\n"]
+LAYOUT_FULL = [" ", "  ", "\t", "\n", "\r\n", " \n  ", "\n\n", "/* c */", "/* x **/", "/* * **/", "/* a*b\n ***/", "/* a\n b */", "// c\n", " \\\n ", "\\\n", " /*x*/ // y\n", "\r\n\r\n", " \\\r\n "]
+LAYOUT_NONL = [" ", "  ", "\t", "/* c */", "/* x **/", " /* a */ /* b */ "]
+LAYOUT_PRAGMA_IN = [" ", "\t", "/* c */", "/* x **/", "/* a\n b */", " \\\n ", "  "]
+LAYOUT_LINE_END = ["\n", "\r\n", " \n  ", " // c\n", " /* c */\n", " /* c **/\n", "\n\n", "\t\r\n"]
 
 
 def logical_sig(text):
